@@ -3,6 +3,8 @@
 import difflib, sys
 rel, old, new, out = sys.argv[1:5]
 src = open(f"/repo/{rel}", newline="").read()
+if "\r\n" in src:
+    old, new = old.replace("\n", "\r\n"), new.replace("\n", "\r\n")
 assert src.count(old) >= 1, "old text not found"
 dst = src.replace(old, new, 1)
 d = difflib.unified_diff(src.splitlines(True), dst.splitlines(True), f"a/{rel}", f"b/{rel}")
